@@ -766,6 +766,15 @@ func (s *Server) startIPCPNegotiation(session *Session) {
 
 // handleIPCP handles IPCP packets
 func (s *Server) handleIPCP(session *Session, data []byte) {
+	// The network-layer phase starts only after successful authentication
+	// (RFC 1661 section 3.5): NCP packets received before that are discarded
+	if !session.Authenticated {
+		s.logger.Debug("IPCP packet before successful authentication, discarding",
+			zap.Uint16("session_id", session.ID),
+		)
+		return
+	}
+
 	pkt, err := ParseLCPPacket(data)
 	if err != nil {
 		return
